@@ -536,10 +536,12 @@ func genTable(cfg Config, emit func(string, bool, []string)) {
 			g.add("wtxn %s", tabs)
 			mustCommit := false
 			var pendingDones []int
+			var createdHere []int // change iterators created in this transaction
 			if withIters && r.IntN(4) == 0 && len(openIters) < 3 {
 				tn := string(tabs[0])
 				g.add("changes %s", tn)
 				openIters = append(openIters, g.niter)
+				createdHere = append(createdHere, g.niter)
 				g.niter++
 				mustCommit = true
 			}
@@ -593,6 +595,7 @@ func genTable(cfg Config, emit func(string, bool, []string)) {
 						g.add("next %d w %d", g.niter, []int{-1, -1, 0, 1}[r.IntN(4)])
 					}
 					openIters = append(openIters, g.niter)
+					createdHere = append(createdHere, g.niter)
 					g.niter++
 					mustCommit = true
 				default:
@@ -601,7 +604,20 @@ func genTable(cfg Config, emit func(string, bool, []string)) {
 					}
 				}
 			}
-			if mustCommit || r.IntN(4) != 0 {
+			if len(createdHere) > 0 && r.IntN(6) == 0 {
+				// the creating transaction is aborted: the iterators track nothing (N3) and are only
+				// closed; closing them must not leave anything behind (the table stays usable)
+				g.add("abort")
+				for _, ci := range createdHere {
+					for k, x := range openIters {
+						if x == ci {
+							openIters = append(openIters[:k], openIters[k+1:]...)
+							break
+						}
+					}
+					g.add("cclose %d", ci)
+				}
+			} else if mustCommit || r.IntN(4) != 0 {
 				g.add("commit")
 				g.nsnap++
 				g.liveDones = append(g.liveDones, pendingDones...)
@@ -735,17 +751,20 @@ type watchRecT struct {
 }
 
 type tIter struct {
-	it        statedb.ChangeIterator[*tObj]
-	table     string
-	delivered []statedb.Change[*tObj]
-	lastRev   uint64
-	openWatch <-chan struct{} // last open watch returned by Next
-	createdAt uint64
-	closed    bool
-	trackRev  uint64 // last deletion revision handed (or creation revision)
+	it         statedb.ChangeIterator[*tObj]
+	table      string
+	delivered  []statedb.Change[*tObj]
+	lastRev    uint64
+	openWatch  <-chan struct{} // last open watch returned by Next
+	createdAt  uint64
+	closed     bool
+	trackRev   uint64 // last deletion revision handed (or creation revision)
+	registered bool   // the creating transaction was committed (its tracker is in the committed root)
+	pendingReg bool   // created in the transaction that is still open
 }
 
 type tableExec struct {
+	aborts        int // write transactions aborted so far in this case
 	db            *statedb.DB
 	m, a          statedb.RWTable[*tObj]
 	wtxn          statedb.WriteTxn
@@ -1245,6 +1264,11 @@ func (e *tableExec) do(o *Out, f []string) string {
 		rtx := e.wtxn.Commit()
 		e.lastHandle = e.wtxn
 		e.wtxn = nil
+		for _, it := range e.iters {
+			if it.pendingReg {
+				it.pendingReg, it.registered = false, true
+			}
+		}
 		// graveyard entries are only kept when a tracker is registered
 		e.committed = e.txnRef
 		e.txnRef = nil
@@ -1257,6 +1281,13 @@ func (e *tableExec) do(o *Out, f []string) string {
 		if e.wtxn != nil {
 			e.wtxn.Abort()
 			e.lastHandle = e.wtxn
+			e.aborts++
+			for _, it := range e.iters {
+				if it.pendingReg {
+					// N3: tracks nothing; for the retention oracle it is not an open iterator
+					it.pendingReg, it.closed = false, true
+				}
+			}
 		}
 		e.wtxn = nil
 		e.txnRef = nil
@@ -1447,7 +1478,7 @@ func (e *tableExec) do(o *Out, f []string) string {
 		}
 		rt := e.txnRef.t(tn)
 		rt.ntrack++
-		e.iters = append(e.iters, &tIter{it: it, table: tn, createdAt: rt.rev, trackRev: rt.rev})
+		e.iters = append(e.iters, &tIter{it: it, table: tn, createdAt: rt.rev, trackRev: rt.rev, pendingReg: true})
 		return fmt.Sprintf("c%d", len(e.iters)-1)
 	case "next":
 		return e.doNext(o, f)
@@ -1459,7 +1490,9 @@ func (e *tableExec) do(o *Out, f []string) string {
 		ci := e.iters[i]
 		ci.it.Close()
 		ci.closed = true
-		e.committed.t(ci.table).ntrack--
+		if ci.registered {
+			e.committed.t(ci.table).ntrack--
+		}
 		if e.committed.t(ci.table).ntrack == 0 {
 			// nothing is retained for nobody (collected at the next run)
 		}
@@ -1501,7 +1534,9 @@ func (e *tableExec) do(o *Out, f []string) string {
 			return "timeout"
 		}
 		ci.closed = true
-		e.committed.t(ci.table).ntrack--
+		if ci.registered {
+			e.committed.t(ci.table).ntrack--
+		}
 		return "ok"
 	case "gcidle":
 		// let the collector handle the triggers the implementation itself produced; nothing is forced
@@ -1605,6 +1640,33 @@ func (e *tableExec) do(o *Out, f []string) string {
 		return "ok"
 	}
 	return "bad-op"
+}
+
+// OnPanic: a documented-legal operation panicked inside the library
+func (e *tableExec) OnPanic(o *Out, f []string, msg string) {
+	if len(f) == 0 {
+		return
+	}
+	switch f[0] {
+	case "reginit", "initdone":
+		return // calling a done-function of an aborted registration is user error (see assumptions)
+	}
+	prop, kind := "C03", "operation-panicked"
+	switch f[0] {
+	case "changes", "next", "cclose", "ccloserace":
+		prop = "C07"
+	case "gc", "gcscan", "gcapply", "gcidle", "gcwhile", "glen":
+		prop = "C08"
+	case "get", "getw", "list", "listw", "prefix", "prefixw", "lb", "lbw", "all", "allw", "num", "rev", "byrev":
+		prop = "C04"
+	}
+	feat := map[string]string{"op": f[0], "after_an_aborted_txn": strconv.FormatBool(e.aborts > 0)}
+	detail := fmt.Sprintf("%s panicked: %s", strings.Join(f, " "), msg)
+	o.Fail(prop, kind, feat, detail)
+	if e.aborts > 0 {
+		// an aborted transaction must leave the behaviour of later transactions untouched
+		o.Fail("C02", "later-operation-panics-after-an-abort", feat, detail)
+	}
 }
 
 // collectable: by the specification, the number of retained deletions of a table that a
